@@ -168,7 +168,7 @@ pub fn run(w: &mut Out, thorough: bool, seed: u64, only_c15: bool) {
 glob_match against the declarative wildcard semantics; the model is queried on every pair whose verdicts differ, plus \
 a fixed 1/97 sample of the pairs whose text contains a metacharacter, 1/1021 of the rest. excl: patterns ≤ 3 over {a,*,?,/,.} × relative paths of ≤ 2 components, lists of 1–2 patterns. \
 plan: all (src,dst) metadata relations over a 3-path universe × exclude lists × delete flag. parse: generated listings (tabs/newlines/dots/unicode in names, \
-fractional, integral, signed, overflowing numbers, malformed and duplicate entries). Non-trivial: pattern ≥ 2 chars and non-empty text / non-empty exclude list / ≥ 2 map entries / listing > 8 bytes."
+fractional, integral, signed, overflowing numbers, malformed and duplicate entries). find: real `find . -type f -printf <format string read from meta.rs>` on real trees (names with tabs/newlines/*, sizes 0–5000, mtimes pre-epoch / sub-second / year 2100): each record vs the model's rendering of that file, and the real parser's map vs the files. Non-trivial: pattern ≥ 2 chars and non-empty text / non-empty exclude list / ≥ 2 map entries / listing > 8 bytes."
         .into();
     w.exhaustive = true;
     let mut rng = Rng::new(seed ^ 0xC19);
